@@ -479,6 +479,8 @@ class Lib:
         return r
 
     def _arr_getitem_tuple(self, a, idx):
+        if len(idx) == 1 and isinstance(idx[0], Arr) and a.ndim == 1:
+            return self.arr_getitem(a, idx[0])
         if len(idx) == a.ndim and all(not isinstance(x, (slice, Arr, list)) for x in idx):
             ks = tuple(self.wrap_index(i, n) for i, n in zip(idx, a.shape))
             return a.f(ks)
@@ -664,6 +666,8 @@ class Lib:
                 return ite(hit, vv, old(ix))
             a.f = newf
             return
+        if isinstance(idx, tuple) and len(idx) == 1 and isinstance(idx[0], Arr) and a.ndim == 1:
+            return self.arr_setitem(a, idx[0], v)
         if isinstance(idx, tuple):
             if len(idx) != a.ndim or any(isinstance(x, (slice, Arr, list)) for x in idx):
                 raise Unsupported('tuple store %r' % (idx,))
@@ -1881,10 +1885,20 @@ def _add_at(L, a, I, v):
     m = to_z3(I.shape[0])
     t = z3.Int('t!at')
 
+    selg = I.ghost.get('selection')
+
     def newf(ix):
         hits = z3.Lambda([t], to_z3(L._wrap_pure(fI((t,)), n)) == to_z3(ix[0]))
         c = CNT(hits, m)
         L.ctx.fact(c >= 0, lemma=True)
+        if selg is not None:
+            # lemma L4 (re-indexing a count over a mask selection):
+            # #{j < m : g(sel j)} = #{i < n0 : mask(i) and g(i)}
+            base, msk = selg['base'], selg['mask']
+            fb, fm = base.f, msk.f
+            full = z3.Lambda([t], z3.And(to_z3(fm((t,))), to_z3(L._wrap_pure(fb((t,)), n)) == to_z3(ix[0])))
+            L.ctx.fact(c == CNT(full, to_z3(base.shape[0])), lemma=True)
+            L.I.used_lemmas.add('L4.count_over_selection')
         inc = L.I.S.binop(ast.Mult(), v, c)
         return L.I.S.binop(ast.Add(), old(ix), inc)
     a.f = newf
